@@ -31,6 +31,7 @@ type LoopSpec struct {
 }
 
 type CutSpec struct {
+	Before  bool // cut before the first instruction of the anchored statement (default: after its last)
 	Anchor  string
 	Asserts []*Clause
 	Assumes []*Clause
@@ -298,14 +299,19 @@ func ParseContractFile(path, pkgPath string) (*ContractFile, error) {
 				}
 				anchor, _ := strconv.Unquote(q)
 				rest = strings.TrimSpace(rest[len(q):])
+				before := false
+				if strings.HasPrefix(rest, "before ") {
+					before = true
+					rest = strings.TrimSpace(rest[7:])
+				}
 				var cs *CutSpec
 				for _, c := range cur.Cuts {
-					if c.Anchor == anchor {
+					if c.Anchor == anchor && c.Before == before {
 						cs = c
 					}
 				}
 				if cs == nil {
-					cs = &CutSpec{Anchor: anchor}
+					cs = &CutSpec{Anchor: anchor, Before: before}
 					cur.Cuts = append(cur.Cuts, cs)
 				}
 				if strings.HasPrefix(rest, "assert") {
